@@ -24,13 +24,26 @@ func emit(format string, a ...interface{}) {
 // scanLines calls f for every input line that is not a case marker (those are echoed)
 func scanLines(f func(fields []string, raw string)) { scanLinesCase(nil, f) }
 
+// beforeCase, when set by a sub, is called before a case marker is echoed and at end of input: subs that answer an
+// operation only after the next one has run (to see whether a returned buffer is still intact then) flush their last answer here
+var beforeCase func()
+
 // scanLinesCase additionally calls onCase at every case marker
 func scanLinesCase(onCase func(), f func(fields []string, raw string)) {
+	defer func() {
+		if beforeCase != nil {
+			beforeCase()
+			out.Flush()
+		}
+	}()
 	sc := bufio.NewScanner(os.Stdin)
 	sc.Buffer(make([]byte, 1<<24), 1<<24)
 	for sc.Scan() {
 		t := sc.Text()
 		if strings.HasPrefix(t, "#case") {
+			if beforeCase != nil {
+				beforeCase()
+			}
 			emit("%s", t)
 			out.Flush()
 			if onCase != nil {
